@@ -224,6 +224,13 @@ func (in *inv) step(op *Op) {
 	case "fail":
 		in.call("fail", 0, "(*T).Fail() called")
 		t.Fail()
+	case "fatalfc": // a failure whose message differs from call to call (the verdict still depends on the draws only)
+		r.mu.Lock()
+		r.counter["fatalfc"]++
+		c := r.counter["fatalfc"]
+		r.mu.Unlock()
+		in.call("fatalf", 0, "")
+		t.Fatalf("failure number %d", c)
 	case "fatalf", "fatal", "failnow", "panic", "rterr":
 		in.call(op.Op, op.Site%len(sites), expectedMsg(op, fmt.Sprintf("s%d", op.Site%len(sites))))
 		sites[op.Site%len(sites)](t, op)
@@ -275,6 +282,13 @@ func (in *inv) step(op *Op) {
 			in.vars[op.Var] = c
 		}
 		r.rec.Emit("ctx", f)
+	case "ctxlive": // a property that relies on its context being live while it runs
+		c := t.Context()
+		r.rec.Emit("ctx", F{"inv": in.id, "id": r.ctxID(c), "err": ctxErr(c), "where": "live"})
+		if c.Err() != nil {
+			in.call("fatalf", 3, "context of a running test case is already done")
+			t.Fatalf("context of a running test case is already done")
+		}
 	case "ctxcheck": // re-sample a stored context
 		if c, ok := in.vars[op.Var].(context.Context); ok {
 			r.rec.Emit("ctx", F{"inv": in.id, "id": r.ctxID(c), "err": ctxErr(c), "where": op.Text})
